@@ -26,6 +26,7 @@ type input struct {
 	B       []byte
 	Tag     string
 	Valid   bool             // must be accepted under every feature set containing Req
+	IfSeed  bool             // ... and only under the feature sets that accept the seed itself (over-long re-encodings)
 	Req     api.CoreFeatures // (only with Valid)
 	AllFS   bool             // compile on the optimizing compiler under every accepting feature set
 	ArgSets int              // 1 = zero arguments only, 3 = zero + two boundary vectors
@@ -79,6 +80,21 @@ func (p *plan) family() []famMod {
 	return p.famC
 }
 
+// substValue: the thorough tier substitutes all 255 other byte values at every offset of every seed;
+// the quick tier does so for seeds up to 56 bytes and uses a 32-value boundary alphabet (structure
+// bytes, type bytes, opcode-class representatives, LEB continuation patterns) for larger seeds.
+var quickBytes = func() (m [256]bool) {
+	for _, v := range []byte{0x00, 0x01, 0x02, 0x03, 0x04, 0x05, 0x07, 0x0b, 0x0f, 0x10, 0x11, 0x12, 0x1a, 0x20, 0x24, 0x28,
+		0x3f, 0x40, 0x41, 0x60, 0x6f, 0x70, 0x7b, 0x7e, 0x7f, 0x80, 0x81, 0xc0, 0xd2, 0xfc, 0xfe, 0xff} {
+		m[v] = true
+	}
+	return
+}()
+
+func (p *plan) substValue(seedLen int, v byte) bool {
+	return p.tier == "thorough" || seedLen <= 56 || quickBytes[v]
+}
+
 // pairSeedMax: seeds up to this size get the pairs of field deviations.
 func (p *plan) pairSeedMax() int {
 	if p.tier == "thorough" {
@@ -90,9 +106,13 @@ func (p *plan) pairSeedMax() int {
 // the section ids and size encodings of the raw (id, size, payload) triples
 var tripleIDs = []byte{0, 1, 2, 3, 4, 5, 6, 7, 8, 9, 10, 11, 12, 13, 14, 0x7f, 0x80, 0xff}
 
-func tripleSizes() [][]byte {
+func tripleSizes(tier string) [][]byte {
 	var s [][]byte
-	for v := 0; v < 128; v++ {
+	n := 32
+	if tier == "thorough" {
+		n = 128
+	}
+	for v := 0; v < n; v++ {
 		s = append(s, []byte{byte(v)})
 	}
 	s = append(s,
@@ -214,7 +234,7 @@ func (p *plan) expand(c chunk, yield func(in input)) {
 		}
 	case "triple":
 		id := tripleIDs[c.A]
-		for _, sz := range tripleSizes() {
+		for _, sz := range tripleSizes(p.tier) {
 			for pl := 0; pl < 256; pl++ {
 				yield(input{B: cat(header, []byte{id}, sz, []byte{byte(pl)}), Tag: "triple", ArgSets: 3})
 			}
@@ -228,7 +248,7 @@ func (p *plan) expand(c chunk, yield func(in input)) {
 		s := p.seeds[c.Seed]
 		for off := c.A; off < c.B; off++ {
 			for v := 0; v < 256; v++ {
-				if byte(v) == s.B[off] {
+				if byte(v) == s.B[off] || !p.substValue(len(s.B), byte(v)) {
 					continue
 				}
 				b := append([]byte{}, s.B...)
@@ -249,7 +269,7 @@ func (p *plan) expand(c chunk, yield func(in input)) {
 			in := input{B: fixed, Tag: fmt.Sprintf("field:%s:%d(%s@%d)=%s:fixup", s.Name, c.A, f.Kind, f.Off, devNames[v]), ArgSets: 3, Field: c.A, Val: v, Fixup: true}
 			if v == 8 {
 				// an over-long (but within the width limit) LEB with consistent sizes is still a valid module
-				in.Valid, in.Req = true, s.Req
+				in.Valid, in.Req, in.IfSeed = true, s.Req, true
 			}
 			yield(in)
 			if len(r) != f.Len {
